@@ -99,3 +99,34 @@ def acktracker(log):
         elif k == "gt":
             out.append({"ev": "gt", "ep": e["ep"], "t": e["t"], "value": e["value"]})
     return out
+
+
+def emission(log):
+    cfg = next(e["cfg"] for e in log if e["k"] == "cfg")
+    out = [{"ev": "init", "mds_c": cfg["mds"], "mds_s": cfg["mds"]}]
+    pk = {}
+    for e in log:
+        if e["k"] == "pkt":
+            pk.setdefault(e["dg"], []).append(e)
+    pending_arr = []
+    for e in log:
+        k = e["k"]
+        if k == "arr":
+            pending_arr.append(e)
+        elif k == "rx":
+            out.append({"ev": "rx", "ep": e["ep"], "addr": e["addr"], "len": e["len"]})
+            for a in pending_arr:
+                if a["haskeys"] and not e["forged"]:
+                    p = pk[a["dg"]][a["idx"]]
+                    ids = [f["id"] for f in p.get("frames", []) if f["t"] == "path_response"]
+                    out.append({"ev": "auth", "ep": e["ep"], "addr": e["addr"],
+                                "kind": "handshake" if a["type"] == "handshake" else "other", "ids": ids})
+            pending_arr = []
+        elif k == "tx":
+            for d in e["dgs"]:
+                ps = pk.get(d["id"], [])
+                out.append({"ev": "dg", "ep": e["ep"], "to": d["to"], "len": d["len"],
+                            "hasInitial": any(p["type"] == "initial" for p in ps),
+                            "initialAckEl": any(p["type"] == "initial" and p.get("ok") and p.get("ackel") for p in ps),
+                            "chal": [f["id"] for p in ps for f in p.get("frames", []) if f["t"] == "path_challenge"]})
+    return out
